@@ -100,7 +100,7 @@ def check_state(spec, hist, reloaded, cont):
             base = R.scale_events(hist, f)
             hash(r)
             for e in cont:
-                r.fill(*e)
+                r.fill(A.fresh(e[0]), e[1])
             d = C.diff(r.toJson(), R.ref_doc(spec, base + cont))
             if d:
                 out.append(core.v_diff(PROP, "scale-continue", "filled scaled object differs from reference", d,
